@@ -695,6 +695,20 @@ func arrayAliasCases() []scopeCase {
 		out = append(out, scopeCase{[]model.Stmt{upFor(n, 0, 2, []model.Stmt{model.Print{E: v(n)}}, nil), model.Text{S: "|"}, model.Print{E: v(n)}}, map[string]model.Value{n: model.Str("data")}})
 		out = append(out, scopeCase{[]model.Stmt{model.Print{E: v(n)}, model.Text{S: "|"}, model.Print{E: model.Ternary{C: v(n), A: model.StrLit{S: "set"}, B: model.StrLit{S: "unset"}}}}, map[string]model.Value{n: model.Int(0)}})
 	}
+	// the loop object kept in a variable: it is the object of the pass it was taken in, whatever later passes (of this loop
+	// or of loops inside and after it) do
+	lf := func(f string) model.Expr { return model.Dot{X: v("loop"), Name: f} }
+	pdot := func(f string) model.Expr { return model.Dot{X: v("p"), Name: f} }
+	arr3 := model.ArrLit{Elems: []model.Expr{lit(7), lit(8), lit(9)}}
+	out = append(out,
+		scopeCase{[]model.Stmt{model.Each{Var: "x", Arr: arr3, Body: []model.Stmt{model.Assign{Name: "p", E: model.Ternary{C: lf("first"), A: v("loop"), B: v("p")}}, model.Print{E: pdot("iter")}, model.Print{E: pdot("last")}}}}, nil},
+		scopeCase{[]model.Stmt{model.Each{Var: "x", Arr: arr3, Body: []model.Stmt{model.If{Conds: []model.Expr{lf("first")}, Bodies: [][]model.Stmt{{model.Text{S: "first"}}}},
+			model.Assign{Name: "p", E: model.Ternary{C: model.Binary{Op: "==", L: lf("index"), R: lit(1)}, A: v("loop"), B: model.Ternary{C: lf("first"), A: v("loop"), B: v("p")}}}, model.Text{S: "["}, model.Print{E: pdot("index")}, model.Print{E: pdot("first")}, model.Text{S: "]"}}}}, nil},
+		scopeCase{[]model.Stmt{model.Each{Var: "x", Arr: arr3, Body: []model.Stmt{model.Assign{Name: "p", E: model.Ternary{C: lf("first"), A: v("loop"), B: v("p")}},
+			model.Each{Var: "y", Arr: model.ArrLit{Elems: []model.Expr{lit(1), lit(2)}}, Body: []model.Stmt{model.Assign{Name: "q", E: v("loop")}, model.Print{E: pdot("iter")}}}, model.Print{E: model.Dot{X: v("loop"), Name: "iter"}}, model.Text{S: ";"}}}}, nil},
+		scopeCase{[]model.Stmt{model.Each{Var: "x", Arr: arr3, Body: []model.Stmt{model.Assign{Name: "ps", E: model.Ternary{C: lf("first"), A: model.ArrLit{Elems: []model.Expr{v("loop")}}, B: call(v("ps"), "append", v("loop"))}},
+			model.If{Conds: []model.Expr{lf("last")}, Bodies: [][]model.Stmt{{model.Each{Var: "s", Arr: v("ps"), Body: []model.Stmt{model.Print{E: model.Dot{X: v("s"), Name: "iter"}}, model.Print{E: model.Dot{X: v("s"), Name: "last"}}, model.Text{S: ","}}}}}}}}}, nil},
+	)
 	return out
 }
 
